@@ -170,6 +170,9 @@ class C18(Scenario):
                 case["early_event"] = xr.randrange(1, 6)
             if xr.random() < 0.15:
                 case["concurrent_stop"] = xr.randrange(1, 8)
+            if xr.random() < 0.1:
+                case["stop_during_start"] = xr.randrange(1, 12)
+                case["events"] = []
             frng = random.Random(f"{seed}:faults")
             if frng.random() < 0.4:
                 # a system call that takes time: the clock moves between two statements of the caller
@@ -341,7 +344,19 @@ class C18(Scenario):
 
             early = sim.spawn(early_src, "dispatcher", "actor")
             hist["separated"] = False
+        starter_stop = None
+        if case.get("stop_during_start"):
+            # stop() (signal handler, another thread) while start() is still running
+            def stop0():
+                for _ in range(case["stop_during_start"] - 1):
+                    sim.yield_point("stop0")
+                tr.stop()
+
+            starter_stop = sim.spawn(stop0, "stopper0", "actor")
+            hist["separated"] = False
         tr.start()
+        if starter_stop is not None:
+            sim.block(lambda: starter_stop.state == DONE, why="join-stopper0")
         if early is not None:
             sim.block(lambda: early.state == DONE, why="join-early")
         for i, (gap, drain) in enumerate(case["events"]):
